@@ -440,7 +440,11 @@ func maskWithEmptyFile(path string) error {
 	}
 	f.Close()
 	defer os.Remove(empty)
-	return syscall.Mount(empty, path, "", syscall.MS_BIND, "")
+	if err := syscall.Mount(empty, path, "", syscall.MS_BIND, ""); err != nil {
+		return err
+	}
+	// unlike /dev/null the file would keep what is written to it (its owner may chmod it): the mount is read-only
+	return syscall.Mount("", path, "", syscall.MS_BIND|syscall.MS_REMOUNT|syscall.MS_RDONLY, "")
 }
 
 func ignoreSignals() {
